@@ -7,6 +7,9 @@ def run(ctx):
     ctx.assumptions += ["transport adapter behaviour on reopen (cancel-before-request, pending extensions) is checked on the real adapter by the gstx harness"]
     stages.mgr_family(ctx, ["C10."], ["all"], lambda s: s["stim"]["kind"] in ("Restart", "RecvRestartExisting") or s["stim"]["msg"]["kind"] in ("Restart", "RestartExisting"),
                       quick_n=5000, invariants=["M_C10_Identity", "M_C10_Skip"], keep=lambda l: any(k in l for k in ('"kind":"Restart"', '"kind":"RecvRestartExisting"', '"kind":"RestartExisting"')))
+    # two-node replays of Sys.tla behaviours on two real managers: C10 rules of SysJudge and of the manager judge on every step of either node
+    from props import c01 as _c01
+    _c01.sys_replay(ctx, prefixes=["C10."], n_quick=10, n_thorough=60)
     # transport-adapter part on the REAL graphsync adapter (virtual time): cancel-before-request, skip count, pending messages once
     b = ctx.go_bin("gstx")
     out = ctx.path("reopenobs.ndjson")
